@@ -294,10 +294,15 @@ func (w *world) manifestWith(name string, to []string) ([]byte, error) {
 	m.Groups = []manifest.Group{}
 	for _, g := range to {
 		var idx int
-		if _, err := fmt.Sscanf(g, "G%d", &idx); err != nil {
-			return nil, err
+		if _, err := fmt.Sscanf(g[1:], "%d", &idx); err != nil || g[0] != 'G' && g[0] != 'M' {
+			return nil, fmt.Errorf("manifestWith: bad group name %q", g)
 		}
 		k := chainx.Acc(groupBase + idx - 1).PrivateKey()
+		if g[0] == 'M' { // round 6: the mirror key of G<idx>
+			if k, err = mirrorPriv(k); err != nil {
+				return nil, err
+			}
+		}
 		m.Groups = append(m.Groups, manifest.Group{PublicKey: k.PublicKey(), Signature: k.Sign(c.Hash.BytesBE())})
 	}
 	if err := m.IsValid(c.Hash, true); err != nil {
@@ -320,6 +325,8 @@ var (
 	factsContracts = []string{"A", "B", "C"}
 	factsSets      = [][]string{{}, {"G1"}, {"G2"}, {"G1", "G2"}}
 	initialSet     = map[string][]string{"A": {}, "B": {"G1"}, "C": {"G1", "G2"}}
+	// round 6: a contract replaces a group key by its mirror key / adds the mirror key (M1 = mirror of G1)
+	factsMirrorSets = [][]string{{"M1"}, {"G1", "M1"}}
 )
 
 // factsChains: entry script + up to 3 steps over {A, B(G1), C(G1,G2)}, one
@@ -332,14 +339,19 @@ var (
 //	          fresh one is made); two changes only in X>X (both by the same contract)
 //	thorough: all 3-step chains, updates to the SAME set (control), every pair of
 //	          changes at two different frames
-func factsChains(thorough bool) []chain {
+func factsChains(thorough, haveF bool) []chain {
 	var out []chain
+	nSteps := 0
 	targets := func(cur []string, present bool) []mutation {
 		var ms []mutation
 		if !present {
 			return nil
 		}
-		for _, s := range factsSets {
+		sets := factsSets
+		if thorough || nSteps <= 2 {
+			sets = append(append([][]string{}, sets...), factsMirrorSets[:1+b2i(haveF)]...) // round 6 (a key next to its mirror only if the subject accepts such manifests at all)
+		}
+		for _, s := range sets {
 			if setName(s) == setName(cur) && !thorough {
 				continue
 			}
@@ -361,6 +373,7 @@ func factsChains(thorough bool) []chain {
 		if n == 0 {
 			return
 		}
+		nSteps = n
 		for p := 1; p <= n; p++ {
 			x := steps[p-1]
 			if n == 3 && !thorough && countStep(steps, x) < 2 {
@@ -460,6 +473,23 @@ func factsCfgs(thorough bool) []cfg {
 		{Scope: R, Rules: []srule{{true, l("group", "G2")}, {false, l("group", "G1")}, {true, l("bygroup", "G1")}}},
 		{Scope: R, Rules: allow(l("group", "G3"))},
 		{Scope: byte(transaction.Global)},
+		// third transaction (round 6): the same questions asked in mirror keys (M<i> = mirror key of G<i>) and
+		// in the byte-reversed hash of the changing contract
+		{Scope: CG, AG: []string{"M1"}},
+		{Scope: R, Rules: allow(l("group", "M1"))},
+		{Scope: R, Rules: allow(l("bygroup", "M1"))},
+		{Scope: R, Rules: []srule{{false, l("group", "M1")}, {true, yes}}},
+		{Scope: R, Rules: []srule{{false, l("bygroup", "M1")}, {true, yes}}},
+		{Scope: CG, AG: []string{"G1", "M1"}},
+		{Scope: CG, AG: []string{"M1", "G2"}},
+		{Scope: R, Rules: allow(not(l("group", "M1")))},
+		{Scope: R, Rules: allow(and(l("group", "G1"), not(l("group", "M1"))))},
+		{Scope: R, Rules: allow(or(l("group", "M1"), l("bygroup", "M1")))},
+		{Scope: R, Rules: []srule{{true, l("group", "M1")}, {false, l("group", "G1")}, {true, yes}}},
+		{Scope: CG, AG: []string{"M2"}},
+		{Scope: R, Rules: allow(l("group", "M2"))},
+		{Scope: CC, AC: []string{"rM"}},
+		{Scope: R, Rules: allow(or(l("hash", "rM"), l("byhash", "rM")))},
 	}
 	if thorough {
 		// every single rule over every tree of depth <= 1 over the leaves that read the facts
@@ -539,7 +569,7 @@ func judgeAgreement(b *built, cfgs []cfg, trace []obs) []mismatch {
 	var out []mismatch
 	for _, s := range order {
 		c := segs[s]
-		for _, g := range []string{"G1", "G2"} {
+		for _, g := range []string{"G1", "G2", "M1"} {
 			a, ok1 := c.res["Group:"+g]
 			x, ok2 := c.res["CustomGroups:"+g]
 			if ok1 && ok2 && a != x {
